@@ -403,9 +403,75 @@ type CaseC20 struct {
 	Rounds     int      `json:"rounds"`
 	Procs      int      `json:"gomaxprocs"`
 	Salt       uint64   `json:"salt"`
+	Millis     int      `json:"millis,omitempty"` // crowd mode: every goroutine keeps calling for this long (so that all of them are descheduled mid-call)
+}
+
+// oracleC20Lean: same property, but the goroutines spend their time inside the library (decode into a fresh
+// object, re-encode, compare bytes) instead of in the harness' reflection; used for crowds.
+func oracleC20Lean(c *CaseC20) *Failure {
+	old := runtime.GOMAXPROCS(max(1, c.Procs))
+	defer runtime.GOMAXPROCS(old)
+	encs := make([][]byte, len(c.Items))
+	for i, v := range c.Items {
+		out, _, err, pan := LibEncode(v)
+		if err != nil || pan != nil {
+			return nil
+		}
+		encs[i] = append([]byte{}, out...)
+		if d, _, derr, dpan := LibDecode(v.Type, out); derr != nil || dpan != nil || Diff(d, Computed(v)) != "" {
+			return nil // sequential defect: other properties' business
+		}
+	}
+	var wg sync.WaitGroup
+	var mu sync.Mutex
+	var first *Failure
+	report := func(f *Failure) {
+		mu.Lock()
+		if first == nil {
+			first = f
+		}
+		mu.Unlock()
+	}
+	var bad atomic.Int64
+	start := make(chan struct{})
+	for g := 0; g < c.Goroutines; g++ {
+		wg.Add(1)
+		go func(g int) {
+			defer wg.Done()
+			<-start
+			var out bytes.Buffer
+			deadline := time.Now().Add(time.Duration(c.Millis) * time.Millisecond)
+			for r := 0; (r < c.Rounds || c.Millis > 0 && time.Now().Before(deadline)) && bad.Load() == 0; r++ {
+				for k := range c.Items {
+					i := (g + r + k) % len(c.Items)
+					obj := regByName[c.Items[i].Type].New()
+					in := bytes.NewBuffer(append([]byte{}, encs[i]...))
+					err, pan, _ := safely(func() error { return DecodeAny(obj, in) })
+					if pan != nil || err != nil {
+						bad.Add(1)
+						report(failf("C20/"+c.Items[i].Type+"/decode-differs", "goroutine %d of %d, round %d: Decode of a message that decodes fine alone returned err=%v panic=%v", g, c.Goroutines, r, err, pan))
+						return
+					}
+					out.Reset()
+					err, pan, _ = safely(func() error { return EncodeAny(obj, &out) })
+					if pan != nil || err != nil || !bytes.Equal(out.Bytes(), encs[i]) {
+						bad.Add(1)
+						report(failf("C20/"+c.Items[i].Type+"/encode-differs", "goroutine %d of %d, round %d: decode+encode in parallel does not reproduce the bytes it reproduces alone (err=%v panic=%v, first difference at %d)", g, c.Goroutines, r, err, pan, firstDiff(out.Bytes(), encs[i])))
+						return
+					}
+				}
+			}
+		}(g)
+	}
+	close(start)
+	wg.Wait()
+	return first
 }
 
 func oracleC20(c *CaseC20) *Failure {
+	if c.Goroutines > 1000 {
+		return oracleC20Lean(c)
+	}
 	old := runtime.GOMAXPROCS(max(1, c.Procs))
 	defer runtime.GOMAXPROCS(old)
 	type ref struct {
@@ -501,13 +567,39 @@ func c20ListTypes() []string {
 	return c20lt
 }
 
+// c20Crowd: "any number of goroutines" - a crowd of 3000, each busy long enough to be preempted in the middle
+// of a call, all decoding/encoding messages with repeating groups (the longest-running calls).
+func c20Crowd(t *testing.T) {
+	ncases := 1
+	if Thorough() {
+		ncases = 5
+	}
+	for k := 0; k < ncases; k++ {
+		c := rapid.Custom(func(rt *rapid.T) *CaseC20 {
+			c := &CaseC20{Goroutines: 2500, Rounds: 1, Millis: 1500, Procs: rapid.SampledFrom([]int{4, 16}).Draw(rt, "procs"), Salt: rapid.Uint64().Draw(rt, "salt")}
+			for i := 0; i < 4; i++ {
+				tn := rapid.SampledFrom(c20ListTypes()).Draw(rt, "listtype")
+				v, _ := GenValue(rt, tn, GenOpts{Mode: Canonical, MaxList: 500, BigProb: 1})
+				c.Items = append(c.Items, v)
+			}
+			return c
+		}).Example(int(EnvSeed()%1000003) + k)
+		Col.Case(Hash64(JSONOf(c)), true, "crowd-of-2500-goroutines")
+		Col.Class("parallel-encode-decode-calls", int64(c.Goroutines*c.Rounds*len(c.Items)*2))
+		if !Direct(t, "C20", "c20", fmt.Sprintf("crowd/%d", k), c, oracleC20) {
+			return
+		}
+	}
+}
+
 func TestC20(t *testing.T) {
 	Col.Property = "C20"
 	ReplayRegress(t, "C20")
+	t.Run("crowd", c20Crowd)
 	t.Run("batches", func(t *testing.T) {
 		CheckProp(t, "C20", "c20", "batches", func(rt *rapid.T) *CaseC20 {
 			n := rapid.IntRange(8, 48).Draw(rt, "n")
-			c := &CaseC20{Goroutines: rapid.SampledFrom([]int{2, 8, 32, 2, 8, 32, 8, 32, 32, 2, 8, 32, 2500}).Draw(rt, "g"), Rounds: rapid.IntRange(1, 4).Draw(rt, "rounds"),
+			c := &CaseC20{Goroutines: rapid.SampledFrom([]int{2, 8, 32}).Draw(rt, "g"), Rounds: rapid.IntRange(1, 4).Draw(rt, "rounds"),
 				Procs: rapid.SampledFrom([]int{2, 4, 16}).Draw(rt, "procs"), Salt: rapid.Uint64().Draw(rt, "salt")}
 			if c.Goroutines > 1000 { // "any number of goroutines": a crowd, each doing little
 				n, c.Rounds = rapid.IntRange(3, 6).Draw(rt, "ncrowd"), 6 // long enough for goroutines to be preempted mid-call
@@ -524,11 +616,11 @@ func TestC20(t *testing.T) {
 				default:
 					tn = rapid.SampledFrom(TypeNames).Draw(rt, "type")
 				}
-				if c.Goroutines > 1000 && i == 0 {
+				if c.Goroutines > 1000 {
 					tn = rapid.SampledFrom(c20ListTypes()).Draw(rt, "listtype")
 				}
 				o := GenOpts{Mode: Canonical, MaxList: 300, BigProb: 50}
-				if c.Goroutines > 1000 && i == 0 {
+				if c.Goroutines > 1000 {
 					o.BigProb = 2
 				}
 				v, ft := GenValue(rt, tn, o)
